@@ -1,11 +1,13 @@
 (** C02 — the verifier enforces exactly the Bulletproofs+ relation.
     Proved so far: the index recurrence of the s-vector is the folding form; every scalar a proof
-    contributes is linear in its weight; the static scalars fill the table.  The equality of the
-    code-shaped scalar computation with the textbook residual ([verifier_equiv], statement in DESIGN.md
-    section 5/C02) is not yet proved: it is compared scalar by scalar with the implementation on every
-    run.  Knowledge soundness (paper Theorems 3-4) is TRUSTED. *)
+    contributes is linear in its weight; the static scalars fill the table; and — the property itself —
+    [C02_verifier_equiv]: for ARBITRARY proof elements the multiscalar product the optimised verifier
+    evaluates equals weight * (textbook right-hand side - textbook left-hand side) of Model/RangeSpec.v,
+    hence ([C02_verifier_accepts_iff]) it vanishes exactly when the textbook Bulletproofs+ verifier
+    accepts.  Knowledge soundness of the textbook protocol (paper Theorems 3-4) is TRUSTED. *)
 From Coq Require Import List Arith NArith Bool.
-From BP Require Import Base.Field Model.Verifier Model.VerifyTop Proofs.SvecP Proofs.WeightP Proofs.GuardsP.
+From BP Require Import Base.Field Model.Verifier Model.VerifyTop Model.Spec Model.RangeSpec Proofs.SvecP Proofs.WeightP Proofs.GuardsP
+     Proofs.ClosedP Proofs.FoldP Proofs.VerifierEquivP.
 Import ListNotations.
 
 (** when 2^rounds = bits*m (a guard of the code), the loop s[i] = s[i - 2^log2 i] * e^2_{rounds-1-log2 i}
@@ -32,3 +34,58 @@ Theorem C02_static_scalars_fill_table : forall (K : Fld) (acc : batch_acc K) bit
   length (fst (final_msm K acc (N.to_nat pad))) = 2 * bits * cap.
 Proof. exact static_length_matches_table. Qed.
 Print Assumptions C02_static_scalars_fill_table.
+
+(** THE PROPERTY: optimised verifier = textbook verifier, for arbitrary (also dishonest) proofs.
+    Hypotheses are exactly the guards of the code: bits >= 1 and m a power of two (constructors),
+    m*bits = 2^rounds (round-count check), non-zero round challenges and y (transcript), plus y <> 1
+    (forced by the closed-form geometric sum; unreachable without a hash pre-image, see DESIGN). *)
+Theorem C02_verifier_equiv : forall (K : Fld), FldOk K -> forall (M : Mod K), ModOk K M ->
+  forall bits a (promises : list (option N)) (H : M) (Gb G Hs Vs : list M) (A A1 B : M) (LR : list (M * M))
+         (r1 s1 : K) (d1 : list K) (y z e w : K) (es : list K),
+  1 <= bits -> length promises = 2 ^ a -> length promises * bits = 2 ^ length es ->
+  Forall (fun c => c <> f0 K) es -> y <> f0 K -> fsub K y (f1 K) <> f0 K ->
+  length G = length promises * bits -> length Hs = length promises * bits ->
+  length Vs = length promises -> length LR = length es ->
+  terms_msm K M (proof_terms K bits promises (mkVproof K d1 r1 s1) (mkChals K y z es e) w)
+            G Hs Vs H Gb A1 B A (map fst LR) (map snd LR)
+  = smul M w (spec_residual K M bits H Gb G Hs Vs promises (mkRproof K M A LR A1 B r1 s1 d1) y z es e).
+Proof. exact verifier_equiv. Qed.
+Print Assumptions C02_verifier_equiv.
+
+Theorem C02_verifier_accepts_iff : forall (K : Fld), FldOk K -> forall (M : Mod K), ModOk K M ->
+  forall bits a (promises : list (option N)) (H : M) (Gb G Hs Vs : list M) (A A1 B : M) (LR : list (M * M))
+         (r1 s1 : K) (d1 : list K) (y z e w : K) (es : list K),
+  1 <= bits -> length promises = 2 ^ a -> length promises * bits = 2 ^ length es ->
+  Forall (fun c => c <> f0 K) es -> y <> f0 K -> fsub K y (f1 K) <> f0 K -> w <> f0 K ->
+  length G = length promises * bits -> length Hs = length promises * bits ->
+  length Vs = length promises -> length LR = length es ->
+  (terms_msm K M (proof_terms K bits promises (mkVproof K d1 r1 s1) (mkChals K y z es e) w)
+            G Hs Vs H Gb A1 B A (map fst LR) (map snd LR) = v0 M
+   <-> spec_accepts K M bits H Gb G Hs Vs promises (mkRproof K M A LR A1 B r1 s1 d1) y z es e).
+Proof. exact verifier_accepts_iff. Qed.
+Print Assumptions C02_verifier_accepts_iff.
+
+(** the closed forms behind it, each for every size *)
+Theorem C02_d_vector_textbook : forall (K : Fld), FldOk K -> forall bits m (z : K), 1 <= bits -> 1 <= m ->
+  d_vec K bits m (fmul K z z) = d_naive K bits m z.
+Proof. exact d_vec_naive. Qed.
+Print Assumptions C02_d_vector_textbook.
+Theorem C02_d_sum_textbook : forall (K : Fld), FldOk K -> forall bits a (z : K),
+  d_sum K bits (2 ^ a) (fmul K z z) = fsum K (d_naive K bits (2 ^ a) z).
+Proof. exact d_sum_naive. Qed.
+Print Assumptions C02_d_sum_textbook.
+Theorem C02_y_sum_textbook : forall (K : Fld), FldOk K -> forall (y : K) n, fsub K y (f1 K) <> f0 K ->
+  fmul K (fmul K y (fsub K (fpow K y n) (f1 K))) (finv K (fsub K y (f1 K))) = ysum_naive K y n.
+Proof. exact y_sum_naive. Qed.
+Print Assumptions C02_y_sum_textbook.
+Theorem C02_folded_generators : forall (K : Fld), FldOk K -> forall (M : Mod K), ModOk K M -> forall (y : K) es (G Hs : list M),
+  y <> f0 K -> Forall (fun e => e <> f0 K) es -> length G = 2 ^ length es -> length Hs = 2 ^ length es ->
+  let s := s_rec K (fprod K (map (finv K) es)) (map (fun e => fmul K e e) es) in
+  fold_Gs K M y es G = [msm (map2 (fmul K) (powers K (finv K y) (2 ^ length es)) s) G] /\
+  fold_Hs K M es Hs = [msm (rev s) Hs].
+Proof.
+  intros K Kok M Mok y es G Hs Hy Hnz LG LH. split.
+  - rewrite (fold_Gs_msm K Kok M Mok) by exact LG. now rewrite (gcoef_s_vector K Kok y Hy es Hnz).
+  - rewrite (fold_Hs_msm K Kok M Mok) by exact LH. now rewrite (hcoef_s_vector K Kok es Hnz).
+Qed.
+Print Assumptions C02_folded_generators.
